@@ -634,6 +634,24 @@ def heuristic_for(rng, kind, Vmax, treasure):
     return [list(up(x).as_integer_ratio()) for x in h]
 
 
+def optimal_action_on_path(rng, m, V):
+    """an optimal action (exact arg-max of the look-ahead on V) of some unmasked state the optimal policy reaches from
+    the initial support; None if every reached state is masked"""
+    n, nA, P, R, av, absf, ini, g, masked = prep(m)
+    best = {}
+    for s in range(n):
+        if not masked[s]:
+            qs = {a: sum(P[s][a][k] * (R[s][a][k] + g * (F(0) if masked[k] else V[k])) for k in range(n))
+                  for a in range(nA) if av[s][a]}
+            best[s] = max(sorted(qs), key=lambda a: qs[a])
+    seen = [s for s in range(n) if ini[s] > 0]
+    for s in seen:
+        if s in best:
+            seen += [k for k in range(n) if P[s][best[s]][k] > 0 and k not in seen]
+    cands = [s for s in seen if s in best]
+    return best[rng.choice(cands)] if cands else None
+
+
 def int32_safe(plans):
     """every reward, optimal value, heuristic value AND every partial sum |reward| + |value| msdm can form from them
     fits comfortably (factor 2) in a signed 32-bit integer, for every problem of the case"""
@@ -643,7 +661,7 @@ def int32_safe(plans):
     return rmax + vmax < 2**30
 
 
-def gen_random_mdp(rng, tier, tweak):
+def gen_random_mdp(rng, tier, tweak, force=None):
     nmax = 7 if tier == "quick" else 10
     gamma = "1" if rng.random() < .3 else None
     u = rng.random()
@@ -664,7 +682,9 @@ def gen_random_mdp(rng, tier, tweak):
     if rng.random() < .35:
         tweak["free_absorbing"] = free_absorbing(rng, m)
     u = rng.random()
-    if F(m["gamma"]) == 1 and rng.random() < .3:
+    if force == "bigfrac":
+        u = .5          # the non-dyadic tweak, always at large magnitude (two such cases in every run: seeded C03-20)
+    if force is None and F(m["gamma"]) == 1 and rng.random() < .3:
         tweak["slow_exit"] = add_slow_exit(rng, m)
     elif u < .10:
         tweak["extreme_probs"] = extreme_probs(rng, m)
@@ -675,6 +695,12 @@ def gen_random_mdp(rng, tier, tweak):
         tweak["jackpots"] = add_jackpots(rng, m, nonpos)
     elif u < .57:
         tweak["nondyadic"] = nondyadic(rng, m, nonpos)
+        if force == "bigfrac" or rng.random() < .7:
+            # ... at LARGE magnitude (seeded C03-20): |V| ~ 1e8 .. 1e11 with thirds / tenths / sevenths, so that the float
+            # round-off between the linear solve and any re-computed look-ahead is far above every ABSOLUTE 1e-10-type
+            # threshold while staying ~1e-16 relative (the tolerances here scale with the magnitude)
+            tweak["reward_scale"] = rng.choice([10**7, 10**8, 10**9])
+            scale_rewards(m, tweak["reward_scale"])
     elif u < .67 and F(m["gamma"]) == 1:
         tweak["slow_exit"] = add_slow_exit(rng, m)
     return m, shape, nonpos
@@ -704,7 +730,8 @@ def gen_case(rng, tier, family=None):
         for key in list(plans[0]["trans"]):          # acyclic version (judged by backward induction)
             plans[0]["trans"][key] = [[max(ns for ns, p in plans[0]["trans"][key]), "1"]]
     else:
-        m, shape, nonpos = gen_random_mdp(rng, tier, tweak)
+        m, shape, nonpos = gen_random_mdp(rng, tier, tweak, force="bigfrac" if family == "random-bigfrac" else None)
+        family = "random"
         plans = [m]
         u = rng.random()
         if u < .35:
@@ -722,6 +749,14 @@ def gen_case(rng, tier, family=None):
     Vmax = [max(V[s] for V in Vall) for s in range(n)]
     kind = rng.choice(["const", "exact", "slack"] + (["exact", "slack"] if shape in ("sparse", "neartie", "chain", "ladder") else []))
     rep = gen_rep(rng, len(plans) + 2 * len(other) > 1) if family not in ("large", "longchain") else {}
+    if str(rep.get("alabels", "")).startswith("none:") and rng.random() < .7:
+        # the action labelled None is one the OPTIMAL policy plays at a state it reaches, and (50 %) the heuristic is a
+        # constant bound, whose one-step greedy choice usually differs from the optimal action (seeded C03-21)
+        j = optimal_action_on_path(rng, plans[0], Vall[0])
+        if j is not None:
+            rep["alabels"] = "none:%d" % j
+        if rng.random() < .5:
+            kind = "const"
     if rep.get("h_as") not in (None, "callable", "partial", "callable_object", "bound_method") and not other and rng.random() < .6:
         kind = "const"      # a numeric (non-callable) heuristic only exists for constant bounds
     treasure = bool((tweak.get("jackpots") or {}).get("treasure"))
@@ -1064,7 +1099,9 @@ def run(ctx):
     if ctx.replay_case:
         cases = [ctx.replay_case["detail"]["case"]]
     else:
-        cases = ([gen_case(ctx.rng, tier) for _ in range(nrand)] +
+        nbig = 3 if tier == "quick" else 30
+        cases = ([gen_case(ctx.rng, tier) for _ in range(nrand - nbig)] +
+                 [gen_case(ctx.rng, tier, "random-bigfrac") for _ in range(nbig)] +
                  [gen_case(ctx.rng, tier, "neartie") for _ in range(ntie)] +
                  [gen_case(ctx.rng, tier, "ladder") for _ in range(nladder)] +
                  [gen_case(ctx.rng, tier, "large") for _ in range(nlarge)] +
@@ -1152,6 +1189,7 @@ def run(ctx):
             f["init_as_state_effective"] = rp.get("init_as") == "state" and len(cv["mdp"]["init"]) == 1
             f["tweak_extreme_probs"] = bool(case.get("tweak", {}).get("extreme_probs"))
             f["tweak_reward_scale"] = bool(case.get("tweak", {}).get("reward_scale"))
+            f["tweak_nondyadic_at_large_magnitude"] = bool(case.get("tweak", {}).get("reward_scale")) and bool(case.get("tweak", {}).get("nondyadic")) and k != 1
             jp = case.get("tweak", {}).get("jackpots") or {}
             f["tweak_jackpot_rare_branch"] = bool(jp)
             f["tweak_jackpot_treasure_state"] = bool(jp.get("treasure"))
